@@ -201,10 +201,13 @@ example : contentAt ((FS.empty.addFile [["by-hash"], ["h"]].flatten { size := 5,
 
 /-- S5 for a whole run: whenever the file under a URL's name passes for unmodified with respect to an answer the server will
     still give for that URL, it has that answer's content -/
-def S5 (root : Path) (s : DState) : Prop :=
-  ∀ src announced date body abort tag, Resp.ok announced date body abort tag ∈ s.orc src →
+def S5On (U : Path → Prop) (root : Path) (s : DState) : Prop :=
+  ∀ src announced date body abort tag, U src → Resp.ok announced date body abort tag ∈ s.orc src →
     sizeTruthy announced = true → needUpdate s.fs (root ++ src) announced date = false →
     contentAt s.fs (root ++ src) = some (body, tag)
+
+/-- S5 at every URL -/
+def S5 (root : Path) (s : DState) : Prop := S5On (fun _ => True) root s
 
 theorem dropRetries_sub (l : List Resp) : ∀ x ∈ (dropRetries l).2, x ∈ l := by
   induction l with
@@ -254,12 +257,12 @@ theorem needUpdate_congr (a b : FS) (p : Path) (h : a.dataAt p = b.dataAt p) (sz
 theorem append_left_inj' (root a b : Path) (h : root ++ a = root ++ b) : a = b := List.append_cancel_left h
 
 /-- S5 survives anything that only shortens the scripts and rewrites one file from scratch (a torso is never "unmodified") -/
-theorem S5_step (root : Path) (s s' : DState) (hwf : s.fs.WF) (h5 : S5 root s) (src : Path)
+theorem S5_step (U : Path → Prop) (root : Path) (s s' : DState) (hwf : s.fs.WF) (h5 : S5On U root s) (src : Path)
     (horc : ∀ q x, x ∈ s'.orc q → x ∈ s.orc q)
-    (hfs : s'.fs = s.fs ∨ ∃ n t, s'.fs = s.fs.rewrite (root ++ src) n t) : S5 root s' := by
-  intro src' a d b ab t hm htru hnu
+    (hfs : s'.fs = s.fs ∨ ∃ n t, s'.fs = s.fs.rewrite (root ++ src) n t) : S5On U root s' := by
+  intro src' a d b ab t hU hm htru hnu
   rcases hfs with hfs | ⟨n, tg, hfs⟩
-  · rw [hfs] at hnu ⊢; exact h5 src' a d b ab t (horc _ _ hm) htru hnu
+  · rw [hfs] at hnu ⊢; exact h5 src' a d b ab t hU (horc _ _ hm) htru hnu
   · rw [hfs] at hnu ⊢
     by_cases hq : root ++ src' = root ++ src
     · rw [hq, C07_index_torso_refetched] at hnu; cases hnu
@@ -267,7 +270,7 @@ theorem S5_step (root : Path) (s s' : DState) (hwf : s.fs.WF) (h5 : S5 root s) (
       rw [needUpdate_congr _ _ _ hd] at hnu
       unfold contentAt
       rw [hd]
-      exact h5 src' a d b ab t (horc _ _ hm) htru hnu
+      exact h5 src' a d b ab t hU (horc _ _ hm) htru hnu
 
 /-- what a pass through the loop body that does not accept leaves behind -/
 theorem attempt_nonaccept (root : Path) (f : DFile) (v : Variant) (src : Path) (s : DState) (err : Bool) (s' : DState)
@@ -326,12 +329,12 @@ theorem attempt_nonaccept (root : Path) (f : DFile) (v : Variant) (src : Path) (
           · rcases h with ⟨e, h⟩ | h <;> cases h
 
 /-- what the loop for one (variant, URL) guarantees -/
-def LoopContent (root : Path) (v : Variant) (src : Path) (s : DState) : TryResult × DState × Bool → Prop
+def LoopContent (U : Path → Prop) (root : Path) (v : Variant) (src : Path) (s : DState) : TryResult × DState × Bool → Prop
   | (.accepted, s', _) => ∃ a d b ab t, Resp.ok a d b ab t ∈ s.orc src ∧ ∀ p ∈ v.allPaths, contentAt s'.fs (root ++ p) = some (b, t)
-  | (.exhausted, s', _) => s'.fs.WF ∧ S5 root s' ∧ ∀ q x, x ∈ s'.orc q → x ∈ s.orc q
+  | (.exhausted, s', _) => s'.fs.WF ∧ S5On U root s' ∧ ∀ q x, x ∈ s'.orc q → x ∈ s.orc q
 
-theorem tryLoop_content (root : Path) (f : DFile) (v : Variant) (src : Path) :
-    ∀ (n : Nat) (s : DState) (err : Bool), s.fs.WF → S5 root s → LoopContent root v src s (tryLoop root f v src n s err)
+theorem tryLoop_content (U : Path → Prop) (root : Path) (f : DFile) (v : Variant) (src : Path) (hU : U src) :
+    ∀ (n : Nat) (s : DState) (err : Bool), s.fs.WF → S5On U root s → LoopContent U root v src s (tryLoop root f v src n s err)
   | 0, s, err, hwf, h5 => ⟨hwf, h5, fun _ _ hx => hx⟩
   | n + 1, s, err, hwf, h5 => by
     unfold tryLoop
@@ -361,14 +364,14 @@ theorem tryLoop_content (root : Path) (f : DFile) (v : Variant) (src : Path) :
       refine ⟨a, d, b, ab, t, hmem, C07_index_rerun_content root f v src s s1 err a d b t ab hr ?_ s' hacc⟩
       intro htru hnu
       rw [hs1] at hnu ⊢
-      exact h5 src a d b ab t hmem htru hnu
+      exact h5 src a d b ab t hU hmem htru hnu
     · -- stop
       rename_i s' hstop
       obtain ⟨ho, hf⟩ := attempt_nonaccept root f v src s err s' (Or.inr hstop)
       have horc : ∀ q x, x ∈ s'.orc q → x ∈ s.orc q := fun q x hx => hreq.2 q x (by rw [← ho]; exact hx)
       have hfr := attempt_frame root f v src s err
       rw [hstop] at hfr
-      exact ⟨hfr.wf hwf, S5_step root s s' hwf h5 src horc hf, horc⟩
+      exact ⟨hfr.wf hwf, S5_step U root s s' hwf h5 src horc hf, horc⟩
     · -- again
       rename_i s' e' hag
       obtain ⟨ho, hf⟩ := attempt_nonaccept root f v src s err s' (Or.inl ⟨e', hag⟩)
@@ -376,8 +379,8 @@ theorem tryLoop_content (root : Path) (f : DFile) (v : Variant) (src : Path) :
       have hfr := attempt_frame root f v src s err
       rw [hag] at hfr
       have hwf' : s'.fs.WF := hfr.wf hwf
-      have h5' := S5_step root s s' hwf h5 src horc hf
-      have ih := tryLoop_content root f v src n s' e' hwf' h5'
+      have h5' := S5_step U root s s' hwf h5 src horc hf
+      have ih := tryLoop_content U root f v src hU n s' e' hwf' h5'
       generalize tryLoop root f v src n s' e' = r at ih ⊢
       obtain ⟨res, s'', e''⟩ := r
       cases res with
@@ -388,28 +391,27 @@ theorem tryLoop_content (root : Path) (f : DFile) (v : Variant) (src : Path) :
         obtain ⟨w, h5'', ho''⟩ := ih
         exact ⟨w, h5'', fun q x hx => horc q x (ho'' q x hx)⟩
 
-/-- **C07 (index stage, a whole index file).** Whatever a dead run left in skel (S5 being the only assumption), if the transfer of
-    an index file is accepted - after any number of failed tries, on whichever of its names and compression variants - every name of
-    the accepted variant shows exactly the content of an answer the server gave for the accepted URL in this run. -/
-theorem C07_index_file_content (root : Path) (f : DFile) :
-    ∀ (vs : List Variant) (s : DState) (err : Bool), s.fs.WF → S5 root s →
+/-- `C07_index_file_content` with S5 demanded only at the URLs `U` of the file itself (what the queue-level theorem needs: the
+    names of the *other* files of the queue may be in any state) -/
+theorem C07_index_file_content_on (U : Path → Prop) (root : Path) (f : DFile) :
+    ∀ (vs : List Variant) (s : DState) (err : Bool), (∀ v ∈ vs, ∀ p ∈ v.allPaths, U p) → s.fs.WF → S5On U root s →
       match tryVariants root f vs s err with
       | (.accepted, s', _) => ∃ v ∈ vs, ∃ src ∈ v.allPaths, ∃ a d b ab t, Resp.ok a d b ab t ∈ s.orc src ∧
           ∀ p ∈ v.allPaths, contentAt s'.fs (root ++ p) = some (b, t)
-      | (.exhausted, s', _) => s'.fs.WF ∧ S5 root s' ∧ ∀ q x, x ∈ s'.orc q → x ∈ s.orc q := by
+      | (.exhausted, s', _) => s'.fs.WF ∧ S5On U root s' ∧ ∀ q x, x ∈ s'.orc q → x ∈ s.orc q := by
   -- the aliases of one variant
-  have aliases : ∀ (v : Variant) (srcs : List Path) (s : DState) (err : Bool), s.fs.WF → S5 root s →
+  have aliases : ∀ (v : Variant) (srcs : List Path) (s : DState) (err : Bool), (∀ p ∈ srcs, U p) → s.fs.WF → S5On U root s →
       match tryAliases root f v srcs s err with
       | (.accepted, s', _) => ∃ src ∈ srcs, ∃ a d b ab t, Resp.ok a d b ab t ∈ s.orc src ∧
           ∀ p ∈ v.allPaths, contentAt s'.fs (root ++ p) = some (b, t)
-      | (.exhausted, s', _) => s'.fs.WF ∧ S5 root s' ∧ ∀ q x, x ∈ s'.orc q → x ∈ s.orc q := by
+      | (.exhausted, s', _) => s'.fs.WF ∧ S5On U root s' ∧ ∀ q x, x ∈ s'.orc q → x ∈ s.orc q := by
     intro v srcs
     induction srcs with
-    | nil => intro s err hwf h5; exact ⟨hwf, h5, fun _ _ hx => hx⟩
+    | nil => intro s err _ hwf h5; exact ⟨hwf, h5, fun _ _ hx => hx⟩
     | cons src rest ih =>
-      intro s err hwf h5
+      intro s err hU hwf h5
       unfold tryAliases
-      have hl := tryLoop_content root f v src 10 s err hwf h5
+      have hl := tryLoop_content U root f v src (hU src List.mem_cons_self) 10 s err hwf h5
       generalize tryLoop root f v src 10 s err = r at hl ⊢
       obtain ⟨res, s1, e1⟩ := r
       cases res with
@@ -418,7 +420,7 @@ theorem C07_index_file_content (root : Path) (f : DFile) :
         exact ⟨src, List.mem_cons_self, a, d, b, ab, t, hm, hc⟩
       | exhausted =>
         obtain ⟨w, h5', ho⟩ := hl
-        have ih' := ih s1 e1 w h5'
+        have ih' := ih s1 e1 (fun p hp => hU p (List.mem_cons_of_mem _ hp)) w h5'
         simp only
         generalize tryAliases root f v rest s1 e1 = r2 at ih' ⊢
         obtain ⟨res2, s2, e2⟩ := r2
@@ -431,11 +433,11 @@ theorem C07_index_file_content (root : Path) (f : DFile) :
           exact ⟨w2, h52, fun q x hx => ho q x (ho2 q x hx)⟩
   intro vs
   induction vs with
-  | nil => intro s err hwf h5; exact ⟨hwf, h5, fun _ _ hx => hx⟩
+  | nil => intro s err _ hwf h5; exact ⟨hwf, h5, fun _ _ hx => hx⟩
   | cons v rest ih =>
-    intro s err hwf h5
+    intro s err hU hwf h5
     unfold tryVariants
-    have ha := aliases v v.allPaths s err hwf h5
+    have ha := aliases v v.allPaths s err (hU v List.mem_cons_self) hwf h5
     generalize tryAliases root f v v.allPaths s err = r at ha ⊢
     obtain ⟨res, s1, e1⟩ := r
     cases res with
@@ -444,7 +446,7 @@ theorem C07_index_file_content (root : Path) (f : DFile) :
       exact ⟨v, List.mem_cons_self, src, hs, a, d, b, ab, t, hm, hc⟩
     | exhausted =>
       obtain ⟨w, h5', ho⟩ := ha
-      have ih' := ih s1 e1 w h5'
+      have ih' := ih s1 e1 (fun w hw => hU w (List.mem_cons_of_mem _ hw)) w h5'
       simp only
       generalize tryVariants root f rest s1 e1 = r2 at ih' ⊢
       obtain ⟨res2, s2, e2⟩ := r2
@@ -455,6 +457,17 @@ theorem C07_index_file_content (root : Path) (f : DFile) :
       | exhausted =>
         obtain ⟨w2, h52, ho2⟩ := ih'
         exact ⟨w2, h52, fun q x hx => ho q x (ho2 q x hx)⟩
+
+/-- **C07 (index stage, a whole index file).** Whatever a dead run left in skel (S5 being the only assumption), if the transfer of
+    an index file is accepted - after any number of failed tries, on whichever of its names and compression variants - every name of
+    the accepted variant shows exactly the content of an answer the server gave for the accepted URL in this run. -/
+theorem C07_index_file_content (root : Path) (f : DFile) :
+    ∀ (vs : List Variant) (s : DState) (err : Bool), s.fs.WF → S5 root s →
+      match tryVariants root f vs s err with
+      | (.accepted, s', _) => ∃ v ∈ vs, ∃ src ∈ v.allPaths, ∃ a d b ab t, Resp.ok a d b ab t ∈ s.orc src ∧
+          ∀ p ∈ v.allPaths, contentAt s'.fs (root ++ p) = some (b, t)
+      | (.exhausted, s', _) => s'.fs.WF ∧ S5 root s' ∧ ∀ q x, x ∈ s'.orc q → x ∈ s.orc q :=
+  fun vs s err hwf h5 => C07_index_file_content_on (fun _ => True) root f vs s err (fun _ _ _ _ => trivial) hwf h5
 
 /-! non-vacuity: the crash state the tenth-round seed agent-C07-10 needs - the by-hash name complete and dated, the canonical name
     still on the previous content - satisfies `WF` and `S5` for a server that announces exactly that file, and the model's transfer
@@ -482,7 +495,7 @@ example : st.fs.WF := by
     · cases h
 
 example : S5 [] st := by
-  intro src a d b ab t hm _ _
+  intro src a d b ab t _ hm _ _
   simp only [st] at hm
   split at hm
   · rename_i hq
@@ -492,6 +505,154 @@ example : S5 [] st := by
     decide
   · cases hm
 end IndexExample
+
+/-! ### ... and over the queue of a whole index stage -/
+
+theorem attempt_orc_sub (root : Path) (f : DFile) (v : Variant) (src : Path) (s : DState) (err : Bool) :
+    ∀ q x, x ∈ (attempt root f v src s err).state.orc q → x ∈ s.orc q := by
+  intro q x hx
+  rw [(attempt_reqs root f v src s err).2] at hx
+  exact (request_mem s src).2 q x hx
+
+theorem tryLoop_orc_sub (root : Path) (f : DFile) (v : Variant) (src : Path) :
+    ∀ (n : Nat) (s : DState) (err : Bool) (q : Path) (x : Resp), x ∈ (tryLoop root f v src n s err).2.1.orc q → x ∈ s.orc q
+  | 0, s, err, q, x, hx => by simpa [tryLoop] using hx
+  | n + 1, s, err, q, x, hx => by
+    have ha := attempt_orc_sub root f v src s err
+    unfold tryLoop at hx
+    split at hx
+    · rename_i s' h; rw [h] at ha; exact ha q x hx
+    · rename_i s' h; rw [h] at ha; exact ha q x hx
+    · rename_i s' e' h; rw [h] at ha
+      exact ha q x (tryLoop_orc_sub root f v src n s' e' q x hx)
+
+theorem tryAliases_orc_sub (root : Path) (f : DFile) (v : Variant) (srcs : List Path) :
+    ∀ (s : DState) (err : Bool) (q : Path) (x : Resp), x ∈ (tryAliases root f v srcs s err).2.1.orc q → x ∈ s.orc q := by
+  induction srcs with
+  | nil => intro s err q x hx; simpa [tryAliases] using hx
+  | cons src rest ih =>
+    intro s err q x hx
+    have hl := tryLoop_orc_sub root f v src 10 s err
+    unfold tryAliases at hx
+    split at hx
+    · rename_i s1 e1 h; rw [h] at hl; exact hl q x hx
+    · rename_i s1 e1 h; rw [h] at hl; exact hl q x (ih s1 e1 q x hx)
+
+theorem tryVariants_orc_sub (root : Path) (f : DFile) (vs : List Variant) :
+    ∀ (s : DState) (err : Bool) (q : Path) (x : Resp), x ∈ (tryVariants root f vs s err).2.1.orc q → x ∈ s.orc q := by
+  induction vs with
+  | nil => intro s err q x hx; simpa [tryVariants] using hx
+  | cons v rest ih =>
+    intro s err q x hx
+    have hl := tryAliases_orc_sub root f v v.allPaths s err
+    unfold tryVariants at hx
+    split at hx
+    · rename_i s1 e1 h; rw [h] at hl; exact hl q x hx
+    · rename_i s1 e1 h; rw [h] at hl; exact hl q x (ih s1 e1 q x hx)
+
+/-- a transfer only ever shortens the scripts of the server -/
+theorem downloadOne_orc_sub (root : Path) (f : DFile) (s : DState) :
+    ∀ q x, x ∈ (downloadOne root f s).orc q → x ∈ s.orc q := by
+  intro q x hx
+  unfold downloadOne at hx
+  split at hx
+  · exact hx
+  · have hv := tryVariants_orc_sub root f f.iterVariants s false
+    unfold downloadFile at hx
+    split at hx
+    · rename_i s1 e1 h; rw [h] at hv; exact hv q x hx
+    · rename_i s1 e1 h; rw [h] at hv
+      repeat' split at hx
+      all_goals exact hv q x hx
+
+theorem Frame.dataAt {T : List Path} {a b : FS} (h : Frame T a b) (hwf : a.WF) (q : Path) (hq : q ∉ T) :
+    b.dataAt q = a.dataAt q := by
+  unfold FS.dataAt
+  rw [h.ino q hq]
+  cases hi : a.ino q with
+  | none => rfl
+  | some i => simp [h.dat i (hwf q i hi)]
+
+theorem not_mem_targets_of {root : Path} {g : DFile} {p : Path} (h : p ∉ g.allPaths) : root ++ p ∉ g.targets root := by
+  intro hm
+  unfold DFile.targets at hm
+  obtain ⟨q, hq, heq⟩ := List.mem_map.mp hm
+  have : q = p := List.append_cancel_left heq
+  subst this; exact h hq
+
+/-- the transfers of other queue entries - whatever their outcome - leave the names of `f` as they were and only shorten the
+    scripts -/
+theorem stage_others (root : Path) (f : DFile) (l : List DFile) :
+    ∀ (s : DState), s.fs.WF → (∀ g ∈ l, ∀ p ∈ f.allPaths, p ∉ g.allPaths) →
+      (l.foldl (fun acc g => downloadOne root g acc) s).fs.WF ∧
+      (∀ p ∈ f.allPaths, (l.foldl (fun acc g => downloadOne root g acc) s).fs.dataAt (root ++ p) = s.fs.dataAt (root ++ p)) ∧
+      ∀ q x, x ∈ (l.foldl (fun acc g => downloadOne root g acc) s).orc q → x ∈ s.orc q := by
+  induction l with
+  | nil => intro s hwf _; exact ⟨hwf, fun _ _ => rfl, fun _ _ hx => hx⟩
+  | cons g rest ih =>
+    intro s hwf hd
+    simp only [List.foldl_cons]
+    have hfr := downloadOne_frame root g s
+    obtain ⟨w, hdat, horc⟩ := ih (downloadOne root g s) (hfr.wf hwf) (fun h hh => hd h (List.mem_cons_of_mem _ hh))
+    refine ⟨w, fun p hp => ?_, fun q x hx => downloadOne_orc_sub root g s q x (horc q x hx)⟩
+    rw [hdat p hp]
+    exact hfr.dataAt hwf _ (not_mem_targets_of (hd g List.mem_cons_self p hp))
+
+/-- **C07 (index stage, the whole queue).** The index stage of a rerun starts from *any* state a dead run left in skel (S5 being
+    the only assumption, and only about the initial state) and processes a queue in which the names of the index file `f` belong to
+    no other entry (the other entries may overlap each other, fail, or be accepted). If the transfer of `f` is accepted, then at
+    the **end of the stage** every name of the accepted variant shows exactly the content of an answer that the server's scripts
+    held for one of that variant's URLs when the stage began. (`download root q s` is this fold over `q.reverse`.) -/
+theorem C07_index_stage_content (root : Path) (pre post : List DFile) (f : DFile) (s : DState) (hwf : s.fs.WF) (h5 : S5 root s)
+    (hidx : f.checkSize = false)
+    (hpre : ∀ g ∈ pre, ∀ p ∈ f.allPaths, p ∉ g.allPaths) (hpost : ∀ g ∈ post, ∀ p ∈ f.allPaths, p ∉ g.allPaths) :
+    match tryVariants root f f.iterVariants (pre.foldl (fun acc g => downloadOne root g acc) s) false with
+    | (.accepted, _, _) => ∃ v ∈ f.iterVariants, ∃ src ∈ v.allPaths, ∃ a d b ab t, Resp.ok a d b ab t ∈ s.orc src ∧
+        ∀ p ∈ v.allPaths,
+          contentAt ((pre ++ f :: post).foldl (fun acc g => downloadOne root g acc) s).fs (root ++ p) = some (b, t)
+    | (.exhausted, _, _) => True := by
+  obtain ⟨wf1, hdat1, horc1⟩ := stage_others root f pre s hwf hpre
+  generalize hsf : pre.foldl (fun acc g => downloadOne root g acc) s = sf at wf1 hdat1 horc1
+  have h5on : S5On (fun p => p ∈ f.allPaths) root sf := by
+    intro src a d b ab t hU hm htru hnu
+    have hd := hdat1 src hU
+    rw [needUpdate_congr _ _ _ hd] at hnu
+    unfold contentAt
+    rw [hd]
+    exact h5 src a d b ab t trivial (horc1 _ _ hm) htru hnu
+  have hfile := C07_index_file_content_on (fun p => p ∈ f.allPaths) root f f.iterVariants sf false
+    (fun v hv p hp => allPaths_subset (mem_iterVariants hv) hp) wf1 h5on
+  have hone : downloadOne root f sf = downloadFile root f sf := by
+    unfold downloadOne; rw [hidx]; rfl
+  have hfr := downloadOne_frame root f sf
+  obtain ⟨_, hdat2, _⟩ := stage_others root f post (downloadOne root f sf) (hfr.wf wf1) hpost
+  rw [List.foldl_append, List.foldl_cons, hsf]
+  rw [hone] at hdat2 ⊢
+  unfold downloadFile at hdat2 ⊢
+  generalize tryVariants root f f.iterVariants sf false = r at hfile hdat2 ⊢
+  obtain ⟨res, s', e'⟩ := r
+  cases res with
+  | exhausted => trivial
+  | accepted =>
+    obtain ⟨v, hv, src, hs, a, d, b, ab, t, hm, hc⟩ := hfile
+    refine ⟨v, hv, src, hs, a, d, b, ab, t, horc1 _ _ hm, fun p hp => ?_⟩
+    have := hdat2 p (allPaths_subset (mem_iterVariants hv) hp)
+    simp only at this ⊢
+    unfold contentAt
+    rw [this]
+    exact hc p hp
+
+/-! non-vacuity: the crash state of `IndexExample` inside a queue of two index files - the other one (no answer upstream: given
+    up as missing) is transferred first; `f` is accepted and both of its names end the stage on the served content -/
+namespace StageExample
+open IndexExample
+def g : DFile := DFile.fromHashedPath ["d", "Sources.xz"] 9 .sha256 "k" true
+
+example : (tryVariants [] f f.iterVariants ([g].foldl (fun acc x => downloadOne [] x acc) st) false).1 = .accepted ∧
+    contentAt (([g] ++ f :: []).foldl (fun acc x => downloadOne [] x acc) st).fs canon = some (5, 3) ∧
+    contentAt (([g] ++ f :: []).foldl (fun acc x => downloadOne [] x acc) st).fs bh = some (5, 3) ∧
+    f.checkSize = false ∧ (∀ p ∈ f.allPaths, p ∉ g.allPaths) := by decide +kernel
+end StageExample
 
 /-! ## the whole run (L2): every crash point, then a good run -/
 namespace Mirror
